@@ -4,7 +4,13 @@
 // (size(), sizes of the two underlying containers, the elements read from the underlying containers
 // and through operator[], forward and reverse iteration).  It contains no oracle.
 //
-// usage: driver <type>   with <type> in ov | oa3 | oa70 | cv | ca3 | ca66
+// usage: driver <type>   with <type> in ov | oa3 | oa70 | cv | ca3 | ca66                      (-DPARSEQ_GROUP=1, default)
+//                                       ovd | ovb | oab3 | oa0 | ca0 | cvi | cai3                  (-DPARSEQ_GROUP=2)
+//   ovd  xoptional_vector<double>            ovb  xoptional_vector<int, std::allocator<int>, std::vector<bool>>
+//   oab3 xoptional_array<int, 3, std::array<bool, 3>>      oa0 / ca0  extent 0
+//   cvi  xcomplex_vector<double, true> (ieee_compliant)    cai3 xcomplex_array<double, 3, true>
+// A call that does not return within the per-call CPU limit, crashes or is reported by a sanitizer ends the trace with a
+// Crash event (no spec action is called Crash); the runner restarts the driver at the next Reset event.
 // Build features (the check probes with tiny programs whether the headers support them):
 //   -DPARSEQ_OPT_ARRAY_FWD_ITER   begin()/end()/cbegin()/cend() of xoptional_array can be instantiated
 //   -DPARSEQ_CPLX_ARRAY_FWD_ITER  the same for xcomplex_array
@@ -19,6 +25,30 @@
 #include <iostream>
 #include <new>
 #include <type_traits>
+#include <array>
+#include <sys/time.h>
+
+#ifndef PARSEQ_GROUP
+#define PARSEQ_GROUP 1
+#endif
+#ifndef PARSEQ_CALL_CPU_LIMIT_S
+#define PARSEQ_CALL_CPU_LIMIT_S 3
+#endif
+
+static void on_cpu_limit(int)
+{
+    std::fflush(stdout);
+    vj::crash_line("cpu-limit");
+    _exit(0);
+}
+static void arm_cpu_limit()
+{
+    struct itimerval t;
+    t.it_interval.tv_sec = 0; t.it_interval.tv_usec = 0;
+    t.it_value.tv_sec = PARSEQ_CALL_CPU_LIMIT_S; t.it_value.tv_usec = 0;
+    setitimer(ITIMER_PROF, &t, nullptr);
+}
+static long long clip30(std::size_t v) { return v > (std::size_t(1) << 30) ? (1ll << 30) : (long long)v; }
 
 struct opt_tag {};
 struct cplx_tag {};
@@ -107,7 +137,17 @@ template <class C> struct fl<C, opt_tag>
         else if (wk == "scalar") r = S(a);
         else if (wk == "pair") r = make(a, b);
         else if (wk == "from") r = src;
+        else if (wk == "addeq") r += S(a);                 // compound assignment through the proxy, plain scalar
+        else if (wk == "muleq") r *= S(a);
+        else if (wk == "addpair") r += make(a, b);         // ... with an xoptional operand
         else bad_script("bad write kind", wk);
+    }
+    // proxy.swap(proxy) of elements i and j
+    static void proxy_swap(C& c, size_t i, size_t j) { auto r = c[i]; auto q = c[j]; r.swap(q); }
+    static std::string rel(const C& x, const C& y)
+    {
+        std::vector<long long> r{ (x < y) ? 1 : 0, (x <= y) ? 1 : 0, (x > y) ? 1 : 0, (x >= y) ? 1 : 0 };
+        return vj::ints(r);
     }
     // T(n, value)
     static C* ctor_nv(void* p, size_t n, long long a, long long) { return new (p) C(n, S(a)); }
@@ -163,14 +203,19 @@ template <class C> struct fl<C, cplx_tag>
         if (wk == "a") r.real() = S(a);
         else if (wk == "b") r.imag() = S(b);
         else if (wk == "scalar") r = S(a);
+        else if (wk == "addeq") r += S(a);                 // compound assignment through the proxy, real scalar
+        else if (wk == "muleq") r *= S(a);
 #ifdef PARSEQ_CPLX_ASSIGN
         else if (wk == "pair") r = make(a, b);
         else if (wk == "from") r = src;
+        else if (wk == "addpair") r += make(a, b);         // ... with an xcomplex operand
 #else
-        else if (wk == "pair" || wk == "from") { (void)src; bad_script("built without PARSEQ_CPLX_ASSIGN, write kind", wk); }
+        else if (wk == "pair" || wk == "from" || wk == "addpair") { (void)src; bad_script("built without PARSEQ_CPLX_ASSIGN, write kind", wk); }
 #endif
         else bad_script("bad write kind", wk);
     }
+    static void proxy_swap(C&, size_t, size_t) { bad_script("no proxy swap for the complex flavour:", "ProxySwap"); }
+    static std::string rel(const C&, const C&) { bad_script("no relational operators for the complex flavour:", "Rel"); }
     static C* ctor_nv(void* p, size_t n, long long a, long long b) { return new (p) C(n, make(a, b)); }
     static C* ctor_no(void* p, size_t n, long long a, long long b, const std::string& ck)
     {
@@ -377,14 +422,18 @@ struct machine
             else if (op == "CopyAssign") { const C& src = O(o); O(k) = src; }
             else if (op == "CtorMove")
             {
+                // re = 1: the moved-from object is destroyed and made anew at once; re = 0: it is kept and observed
                 rebuild(k, [&](void* p) { return new (p) C(std::move(O(o))); });
-                rebuild(o, [](void* p) { return new (p) C(); });     // the moved-from object is destroyed and made anew
+                if (a.num("re", 1)) rebuild(o, [](void* p) { return new (p) C(); });
             }
             else if (op == "MoveAssign")
             {
                 O(k) = std::move(O(o));
-                rebuild(o, [](void* p) { return new (p) C(); });
+                if (a.num("re", 1)) rebuild(o, [](void* p) { return new (p) C(); });
             }
+            else if (op == "MaxSize") { const C& cx = O(k); val = "[" + std::to_string(clip30(cx.max_size())) + "]"; }
+            else if (op == "Rel") { const C& cx = O(k); const C& cy = O(o); val = F::rel(cx, cy); }
+            else if (op == "ProxySwap") F::proxy_swap(O(k), size_t(a.num("i")), size_t(a.num("j")));
             else if (op == "Resize" || op == "ResizeV" || op == "ResizeO") do_resize(k, op, a);
             else if (op == "At")
             {
@@ -442,6 +491,7 @@ struct machine
         catch (const std::out_of_range&) { exc = "out_of_range"; }
         catch (const std::length_error&) { exc = "length_error"; }
         catch (const std::exception&) { exc = "other"; }
+        catch (...) { exc = "nonstd"; }
         return std::string("{\"exc\":\"") + exc + "\",\"val\":" + (std::strcmp(exc, "none") ? "[]" : val) + "}";
     }
 
@@ -490,6 +540,7 @@ struct machine
         while (std::getline(std::cin, line))
         {
             if (line.empty()) continue;
+            arm_cpu_limit();
             vj::value e = vj::parse(line);
             std::string res = step(e);
             bool eq = (O(0) == O(1)), ne = (O(0) != O(1));
@@ -505,7 +556,9 @@ struct machine
 int main(int argc, char** argv)
 {
     vj::install_crash_handlers();
+    std::signal(SIGPROF, on_cpu_limit);
     std::string t = argc > 1 ? argv[1] : "";
+#if PARSEQ_GROUP == 1
     if (t == "ov") return machine<xtl::xoptional_vector<int>>().run();
     if (t == "oa3") return machine<xtl::xoptional_array<int, 3>>().run();
     if (t == "oa70") return machine<xtl::xoptional_array<int, 70>>().run();
@@ -513,5 +566,15 @@ int main(int argc, char** argv)
     if (t == "ca3") return machine<xtl::xcomplex_array<double, 3>>().run();
     if (t == "ca66") return machine<xtl::xcomplex_array<double, 66>>().run();
     std::fprintf(stderr, "usage: driver {ov|oa3|oa70|cv|ca3|ca66} < script\n");
+#else
+    if (t == "ovd") return machine<xtl::xoptional_vector<double>>().run();
+    if (t == "ovb") return machine<xtl::xoptional_vector<int, std::allocator<int>, std::vector<bool>>>().run();
+    if (t == "oab3") return machine<xtl::xoptional_array<int, 3, std::array<bool, 3>>>().run();
+    if (t == "oa0") return machine<xtl::xoptional_array<int, 0>>().run();
+    if (t == "ca0") return machine<xtl::xcomplex_array<double, 0>>().run();
+    if (t == "cvi") return machine<xtl::xcomplex_vector<double, true>>().run();
+    if (t == "cai3") return machine<xtl::xcomplex_array<double, 3, true>>().run();
+    std::fprintf(stderr, "usage: driver {ovd|ovb|oab3|oa0|ca0|cvi|cai3} < script\n");
+#endif
     return 3;
 }
